@@ -934,13 +934,14 @@ def rule_k18(repo, rid='C01.K18'):
     under two binders has a type (that of the outermost binder), the term counts as closed, and a step about it is
     accepted.  Every such look-up in the type-computing functions of kernel/term.py is behind both bounds."""
     from ..astutil import comparison_holding
-    res = RuleResult(rid, 'the type of a bound variable is looked up only for an index that is neither negative nor too large', floor=2)
+    res = RuleResult(rid, 'the type of a bound variable is looked up only for an index that is neither negative nor too large', floor=1)
     m = repo.module(TERM)
     for f in m.all_funcs:
         top = f
         while top.parent is not None:
             top = top.parent
-        if 'get_type' not in top.name:
+        # the type-computing functions: get_type, checked_get_type and what they were split into (a helper with `type` in its name)
+        if 'type' not in top.name.lower():
             continue
         subs = [n for n in ast.walk(f.node) if isinstance(n, ast.Subscript) and isinstance(n.ctx, ast.Load) and isinstance(n.slice, ast.Attribute) and
                 n.slice.attr == 'n' and isinstance(n.value, ast.Name)]
